@@ -41,7 +41,7 @@ def P(prop, level, rule, **kw):
 
 P("C01", "model_checking",
   "non-trivial = a decode_packet/process_packet call on exactly the bytes the immediately preceding encoder call produced; distinct = distinct (context, packet bytes)",
-  models=["MC_Codec"], families=["requests", "responses", "vendor", "lengths"])
+  models=["MC_Codec"], families=["seed", "requests", "responses", "vendor", "lengths"])
 P("C02", "model_checking",
   "non-trivial = decode/process of a byte string whose last byte is not the PEC of the rest (every <=8-bit burst of every corpus packet, wrong PEC bytes, random strings); distinct = distinct (context, input bytes)",
   models=["MC_Pec", "MC_Decode", "MC_Endpoint", "MC_Link"], gen_quick=["GenEndpoint", "GenLink"], gen_thorough=["GenEndpoint", "GenLinkTwo"], families=["bus", "corrupt"])
@@ -65,10 +65,10 @@ P("C08", "model_checking",
   models=["MC_Codec"], families=["vendor", "lengths"])
 P("C09", "model_checking",
   "non-trivial = decode_packet on an input inside C09's claim (not too short, not a response to Get EID / Allocate EIDs / Routing Update); distinct = distinct (context, bytes)",
-  models=["MC_Decode", "MC_Endpoint"], gen_quick=["GenDecode"], gen_thorough=["GenDecodeFull"], families=["mutate", "robust"])
+  models=["MC_Decode", "MC_Endpoint"], gen_quick=["GenDecode"], gen_thorough=["GenDecodeFull"], families=["seed", "mutate", "robust"])
 P("C10", "exploration",
   "every decode_packet / get_length / process_packet call is an evaluation (panic trapped as data); distinct = distinct (op, context, input bytes)",
-  models=["MC_Decode", "MC_Endpoint"], gen_quick=["GenDecode"], gen_thorough=["GenDecodeFull"], families=["bus", "robust", "mutate", "corrupt"])
+  models=["MC_Decode", "MC_Endpoint"], gen_quick=["GenDecode"], gen_thorough=["GenDecodeFull"], families=["seed", "history", "bus", "robust", "mutate", "corrupt"])
 P("C11", "model_checking",
   "non-trivial = a process_packet call where both decode_packet and process_packet returned; distinct = distinct (context, bytes, buffer size)",
   models=["MC_Endpoint"], gen_quick=["GenEndpoint", "GenEndpoint3", "GenEndpointSim", "GenLink"], gen_thorough=["GenEndpoint", "GenEndpoint3Full", "GenEndpointSim", "GenLinkTwo"], families=["bus", "forge", "robust", "corrupt"])
